@@ -143,6 +143,46 @@ def load_inventory(path):
         return None
 
 
+def _tail(b):
+    """name of a function without its module path: `Type::method` for associated functions, the bare name for free / nested ones"""
+    parts = b.sname.split("::")
+    if b.kind == "AssocFn" and len(parts) >= 2:
+        return "::".join(parts[-2:])
+    return parts[-1]
+
+
+def _known_tails(inventory):
+    """tails that identify exactly one function of the inventory (moving a function to another module keeps it known)"""
+    from collections import Counter
+    c = Counter()
+    for n in inventory:
+        parts = n.split("::")
+        c[parts[-1]] += 1
+        if len(parts) >= 2:
+            c["::".join(parts[-2:])] += 1
+    return {k for k, v in c.items() if v == 1}
+
+
+def _is_new(b, inventory, tails):
+    if b.sname in inventory:
+        return False
+    # moved (nested fn -> module level, other file): the same name under another path, unique on the reference tree
+    return _tail(b) not in tails
+
+
+def _recursive(fx, b, depth=6):
+    seen, st = set(), [(e, 0) for e in (b.sum_edges or ())]
+    while st:
+        x, d = st.pop()
+        if x == b.id:
+            return True
+        if x in seen or d >= depth or x not in fx.bodies:
+            continue
+        seen.add(x)
+        st.extend((e, d + 1) for e in (fx.bodies[x].sum_edges or ()))
+    return False
+
+
 def apply(fx, inventory):
     """Inline calls to in-crate functions whose name is not in `inventory` into their callers; returns the list of helper names.
     Bodies that were inlined everywhere they are called are removed from fx.bodies (their closures are re-parented)."""
@@ -151,13 +191,14 @@ def apply(fx, inventory):
         return []
     # functions that are new but cannot be inlined (async fns: their code lives in a coroutine body) are remembered so that
     # rules can look through calls to them (FnCtx.calls_deep)
+    tails = _known_tails(inventory)
     for b in fx.bodies.values():
-        if b.kind in ("Fn", "AssocFn") and b.sname not in inventory and "::tests::" not in b.sname and not b.derived:
+        if b.kind in ("Fn", "AssocFn") and _is_new(b, inventory, tails) and "::tests::" not in b.sname and not b.derived:
             fx.new_fn_ids.add(b.id)
     new = {}
     for b in fx.bodies.values():
-        if b.kind in ("Fn", "AssocFn") and b.sname not in inventory and "::tests::" not in b.sname and not b.asyncness and not b.derived \
-                and b.impl_trait is None:
+        if b.kind in ("Fn", "AssocFn") and _is_new(b, inventory, tails) and "::tests::" not in b.sname and not b.asyncness and not b.derived \
+                and b.impl_trait is None and not _recursive(fx, b):
             new[b.id] = b
     if not new:
         return []
